@@ -7,42 +7,59 @@ DRIVER = "C44"
 GENERATED = ["immutable"]
 SOURCES = ["src/allmydata/immutable/offloaded.py", "src/allmydata/immutable/upload.py"]
 DESIGN_REF = "DESIGN.md §2 C44"
-TECHNIQUE = ("Lean 4 model of the helper's ciphertext fetch (append-only partial file, resume offset = its size, forward-only client "
-             "reader, rename when complete, bypass when the complete file exists), of the client-side cap assembly and of the "
-             "already-present decision; invariant proof (partial file is a prefix of the ciphertext) over every interruption pattern; "
-             "correspondence and monitor on a real offloaded.Helper + AssistedUploader running in-process on harness/grid.py, with a "
-             "twin grid for the direct upload")
-LEVEL_TEXT = ("PARTIAL. Proved for every ciphertext, positive chunk size and every list of disturbed attempts followed by an undisturbed "
-              "one: the ciphertext file the helper encodes from equals the client's ciphertext, hence (for any encoder that is a function "
-              "of ciphertext and parameters) shares, read-cap and verify-cap equal those of the direct upload; the client-side reader "
-              "(EncryptAnUploadable behind RemoteEncryptedUploadable) returns exactly the ciphertext bytes asked for, for every sequence "
-              "of forward reads and every client chunk size, also when a resume makes it skip ahead in several pieces; a file with at least "
-              "total_shares distinct shares and a readable UEB is reported present with no upload helper and no share write. Network "
-              "and file-system timing is not modelled: a disturbance is the failure of the n-th read_encrypted call, a failure after the "
-              "fetch completed, a disconnect or a helper restart between attempts; several concurrent clients for one storage index "
-              "are not modelled. Tied to the code by running the real Helper/AssistedUploader under those disturbances and comparing the "
-              "partial/complete file sizes after every attempt, the ciphertext handed to the encoder and the present/need-upload decision.")
-LEVEL_NOTE = ("Lean kernel + standard axioms; encoder abstract (C01/C36 are about the real one); hand-written model; the harness shrinks "
-              "CHKCiphertextFetcher.CHUNK_SIZE for most scenarios so that small files have many interruption points (one scenario per "
-              "run uses the real 50 KiB).")
-RULE = ("re-upload scenarios (6 fixed + random): twin grids, one reused production Helper; upload, lose share numbers (one / some / "
-        "below k / all / none) on both grids, upload again, up to three rounds; share sets, share bytes, caps and downloads compared, "
-        "present/need answers compared with the memoryless model over the grid history; twin grids at sizes 0, 1, 54, 55, 56, 57 and around segment boundaries for three fixed parameter sets (+ random ones): "
-        "cap string, verify-cap, shares and which uploader was picked, literal uploads contact nobody; function-level histories of remote_read_encrypted on the real client reader (25 fixed + random); a fixed corpus first (a 217145-byte file, production 50 KiB chunk sizes on helper and client side, helper upload cut "
-        "after every chunk 0..last and after the complete fetch, by error / disconnect / helper restart, a resume of a resume, and a "
-        "7-chunk variant with both chunk sizes 1000), each resumed and compared with the direct upload (caps, shares, downloaded "
-        "plaintext); then seeded scenarios: k/N/servers/segment size/file size x chunk size x a list of 0..3 disturbed attempts (error on the i-th "
-        "read_encrypted, error after the fetch, disconnect at the i-th read, helper restart between attempts) then a clean attempt, "
-        "then the same file again (already present), then again after deleting shares; plus pre-existing-copy scenarios on twin "
-        "grids (helper vs direct upload onto a healthy copy / a copy lacking shares / a copy whose share numbers are duplicated "
-        "across servers while others are lost, files >= N with distinct < N and distinct < k / duplicates with all numbers present / "
-        "no copy) comparing the present decision, the resulting set of share numbers, share bytes and caps. A case is one scenario; distinct = distinct "
-        "(params, size, chunk, fault list); non-trivial = at least one disturbance fired.")
+TECHNIQUE = ("Lean 4 model of the helper's ciphertext fetch (append-only partial file, resume offset = its size, rename when complete, "
+             "bypass when the complete file exists, tail of the partial file lost when the helper dies), of the client-side reader "
+             "(EncryptAnUploadable as a plaintext position and a keystream position behind RemoteEncryptedUploadable, skips done in "
+             "CHUNKSIZE pieces), of the client's choice of uploader (literal threshold before helper) and cap assembly, and of the "
+             "already-present decision as a function of the servers' current get_buckets answers; invariant proofs (partial file is a "
+             "prefix of the ciphertext; keystream position = plaintext position) over every interruption pattern and read sequence; "
+             "correspondence and monitor on a real offloaded.Helper + AssistedUploader running in-process on harness/grid.py, always "
+             "with a twin grid for the direct upload")
+LEVEL_TEXT = ("PARTIAL (timing and concurrent clients not modelled; encoder abstract). Proved: for every ciphertext, positive chunk size "
+              "and every list of disturbed attempts (n-th read_encrypted fails, helper dies there and loses the tail of the partial file, "
+              "failure after the fetch) followed by an undisturbed one, the file the helper encodes from equals the client's ciphertext "
+              "(resumed_fetch_eq_ciphertext, incoming_file_is_prefix); the client-side reader returns exactly the ciphertext bytes asked "
+              "for, for every sequence of forward reads and every client chunk size, also when a resume makes it skip ahead in several "
+              "pieces (client_reader_returns_ciphertext); hence, for any encoder that is a function of ciphertext and parameters, shares, "
+              "read-cap and verify-cap equal those of the direct upload (helper_cap_eq_direct_cap), and for files of EVERY size incl. "
+              "LIT-sized ones the client with a helper returns the same cap as the client without (upload_with_helper_eq_upload_without, "
+              "literal_sizes_bypass_helper, lit_threshold_is_55 pinned to the extracted constant); a file reported present is answered "
+              "with no upload helper and no share write (present_not_reuploaded), 'present' implies that every one of the N share numbers "
+              "exists on some server now, whatever duplicates exist and whatever the helper placed earlier (present_implies_all_shares, "
+              "present_answer_reflects_current_grid, absent_needs_upload). Counterexample theorems show what each seeded change broke "
+              "(zero_chunk_counterexample, keystream_lag_counterexample, counting_files_counterexample, helper_first_counterexample, "
+              "memory_counterexample). Assumed, not proved here: key and storage index are derived identically on both paths (same client "
+              "code, C17); encoding is a function of ciphertext and parameters (C01/C36). Not covered: several clients uploading one "
+              "storage index at once (reader pool of AskUntilSuccessMixin), wall-clock timing.")
+LEVEL_NOTE = ("Lean kernel + standard axioms (16 theorems, no _partial, no Mathlib); hand-written model; no defect found in /repo for this "
+              "property; the harness shrinks CHKCiphertextFetcher.CHUNK_SIZE and EncryptAnUploadable.CHUNKSIZE for most random scenarios "
+              "so that small files have many interruption points (the fixed corpus uses the production 50 KiB on both sides).")
+RULE = ("fixed families first, independent of the seed (VERIF_CORPUS_ONLY=1 runs only these): 25 histories of remote_read_encrypted on "
+        "the real client reader; twin grids at sizes 0, 1, 54, 55, 56, 57 and around segment boundaries for three parameter sets (cap "
+        "string, verify-cap, shares, which uploader was picked, literal uploads contact nobody); 6 re-upload scenarios (twin grids, one "
+        "reused production Helper: upload, lose share numbers (one / some / below k / all / none) on both grids, upload again); the "
+        "interrupted-upload corpus (a 217145-byte file with production 50 KiB chunks on both sides cut before every read 0..last and "
+        "after the complete fetch, by error / disconnect / helper restart, a resume of a resume, and a 7-chunk variant with both chunk "
+        "sizes 1000 incl. helper crashes losing the tail of the partial file), each resumed and compared with the direct upload (caps, "
+        "shares, ciphertext handed to the encoder, downloaded plaintext); 9 pre-existing-copy layouts (healthy / lacking / share "
+        "numbers duplicated across servers while others are lost, files >= N with distinct < N and distinct < k / duplicates with all "
+        "present / none). Then the same families with random parameters: reader histories, sizes, re-uploads (up to three rounds), "
+        "pre-existing copies, and main scenarios k/N/servers/segment size/file size x helper chunk x client chunk x a list of 0..3 "
+        "disturbed attempts (error on the i-th read_encrypted, error after the fetch, disconnect at the i-th read, helper crash with "
+        "tail loss, helper restart) then a clean attempt, then the same file again (already present), then again after deleting "
+        "shares. A case is one scenario or history; distinct = distinct parameters and fault list; non-trivial = at least one "
+        "disturbance fired, or a pre-existing / re-upload / boundary-size situation.")
 TRUSTED = ["harness/grid.py (LocalWrapper standing in for foolscap references; fault hook)",
-           "the HelperProxy in harness/props/c44.py that wraps the returned CHKUploadHelper like foolscap would",
-           "AES-CTR from `cryptography` as reference for the ciphertext"]
-ASSUMPTIONS = ["shrinking CHKCiphertextFetcher.CHUNK_SIZE and EncryptAnUploadable.CHUNKSIZE changes only the number of reads (the fixed "
+           "attach_helper / HelperProxy in harness/props/c44.py that wraps the returned CHKUploadHelper like foolscap would",
+           "AES-CTR from `cryptography` as reference for ciphertext and keystream",
+           "file-level manipulation of share directories (copy / delete / truncate) to stage churn and crashes",
+           "lean/Drv/C44.lean parsers"]
+ASSUMPTIONS = ["key and storage index are the same on the helper and the direct path (derived by the same client code before the paths "
+               "diverge; caps are compared on every scenario)",
+               "encoding is a function of (ciphertext, parameters) (share bytes are compared with the direct upload on every scenario)",
+               "shrinking CHKCiphertextFetcher.CHUNK_SIZE and EncryptAnUploadable.CHUNKSIZE changes only the number of reads (the fixed "
                "corpus runs with the production values)",
+               "a helper crash leaves a prefix of what was appended (the file is opened in append mode)",
                "share data read through ShareFile.read_share_data is the grid state (leases ignored)"]
 
 
